@@ -188,6 +188,12 @@ class _ClsLevelDispatch(RefCollection[_ET]):
                 f"Can't assign an event directly to the {target} class"
             )
 
+        if not registry._stored_in_collection(event_key, self):
+            # this target / function pair is already established; as with
+            # instance-level collections, doubles are eliminated, so that
+            # a single remove() undoes it
+            return
+
         cls: Type[_ET]
 
         for cls in util.walk_subclasses(target):
@@ -200,7 +206,6 @@ class _ClsLevelDispatch(RefCollection[_ET]):
                     self._clslevel[cls].append(event_key._listen_fn)
                 else:
                     self._clslevel[cls].appendleft(event_key._listen_fn)
-        registry._stored_in_collection(event_key, self)
 
     def insert(self, event_key: _EventKey[_ET], propagate: bool) -> None:
         self._do_insert_or_append(event_key, is_append=False)
